@@ -581,6 +581,19 @@ def check_config(ctx, lean, oracle, name, c, op):
                     return
     else:
         ctx.count("numpy-reference-only")
+    if name in ("AngularSpectrumPropagator", "FresnelPropagator") and _prod(c["shape"]) * c["pad_factor"] ** len(c["shape"]) <= 16:
+        # the code AS IT IS for every pad_factor (`propEval`: coded inverse of the padded transform) around the operator's own
+        # transfer function; for pad_factor > 1 this is the tie of the model under the known finding dft-inv-padded
+        ms = [c["pad_factor"] * v for v in c["shape"]]
+        Dd = np.asarray(op.D.diagonal).astype(np.complex128).ravel()
+        rp = lean.m.call("prop", ns=c["shape"], ms=ms, dre=fs2b(Dd.real), dim=fs2b(Dd.imag))
+        ctx.count("optics-propagator-model")
+        if not _close(R, _cmat(rp["coded"]), 2e-5):
+            ctx.disagree(f"linops.{name}.as_coded", case, _summ(R), _summ(_cmat(rp["coded"])), oracle=oracle,
+                         note="real propagator differs from the model of Propagator._eval (F.inv(D @ F @ x) with the coded inverse)")
+            return
+        if not _close(_cmat(rp["doc"]), D_np, 2e-5):
+            raise common.Infra("model: documented propagator (propEvalDoc) differs from the numpy F^-1 D F")
     if name == "XRayTransform2D":
         if not xray_checks(ctx, lean, oracle, name, c, op, R, case):
             return
